@@ -7,5 +7,5 @@ require (
 	github.com/goblimey/go-tools v0.0.11
 	github.com/google/go-cmp v0.5.9
 	github.com/kylelemons/godebug v1.1.0
-	go.bug.st/serial v1.6.2 // indirect
+	go.bug.st/serial v1.6.2
 )
